@@ -34,6 +34,8 @@ def run_records(sc, model=None, sim=None, register_stocks=False):
         out["inputs_stocks"] = sim.inputs_stocks.to_numpy(dtype=float).copy()
     out["n"] = int(sim.n_temporal_units_simulated)
     out["crashed"] = bool(sim.has_crashed)
+    out["final_stock"] = np.array(sim.model.inputs_stock, dtype=float, copy=True)
+    out["inv_duration"] = np.array(sim.model.inv_duration, dtype=float, copy=True)
     return out
 
 
@@ -119,6 +121,43 @@ def c11_order(sc, base, seed):
         tw["sim"]["events_mode"] = mode
         b = run_records(tw)
         out += cmp_records("C11", base, b, f"events passed via {mode} instead of one by one")
+    # events registered while the simulation is already running (before any of them occurs): the first ones up front,
+    # the others after a few steps, through add_event / add_events
+    if sc["events"] and "error" not in base:
+        dt = int(sc["model"].get("dt", 1))
+        first = min(e["occ"] for e in sc["events"])
+        steps_before = (first - 1) // dt          # steps at times 0 .. (steps_before-1)*dt < first occurrence
+        if steps_before >= 1:
+            rng = random.Random(seed + 17)
+            j = rng.randint(1, steps_before)
+            try:
+                sim = Simulation(scen.build_model(sc["table"], sc["model"]), n_temporal_units_to_sim=sc["T"],
+                                 register_stocks=sc["sim"].get("register_stocks", False))
+                evs = [scen.build_event(e) for e in sc["events"]]
+                k0 = rng.randint(0, len(evs) - 1)
+                for ev_ in evs[:k0]:
+                    sim.add_event(ev_)
+                for _ in range(j):
+                    sim.next_step()
+                late = evs[k0:]
+                if rng.random() < 0.5:
+                    for ev_ in late:
+                        sim.add_event(ev_)
+                else:
+                    sim.add_events(late)
+                for _ in range(j * dt, sc["T"], dt):
+                    if sim.next_step() == 1:
+                        sim.has_crashed = True
+                        break
+                    sim.n_temporal_units_simulated = sim.current_temporal_unit
+                sim.n_temporal_units_simulated = sim.current_temporal_unit
+                b = {r: getattr(sim, r).to_numpy(dtype=float).copy() for r in RECORDS}
+                b["n"] = int(sim.n_temporal_units_simulated)
+                b["crashed"] = bool(sim.has_crashed)
+                b["columns"] = list(sim.production_realised.columns)
+            except Exception as e:
+                b = {"error": f"{type(e).__name__}: {e}"}
+            out += cmp_records("C11", base, b, f"some events registered after {j} steps (before any occurrence) instead of up front", rtol=1e-9, atol_scale=1e-9)
     return out
 
 
@@ -413,6 +452,13 @@ def long_loop(sc, base, seed, pid="C10"):
     if not b["crashed"] and b["n"] != T:
         out.append(viol(pid, b["n"], f"loop() simulated {b['n']} temporal units of a horizon of {T}"))
         return out
+    # inventories declared infinite are still infinite at the end (nothing the loop does periodically may touch them)
+    if "final_stock" in b and not b["crashed"]:
+        inf_rows = ~np.isfinite(b["inv_duration"])
+        if inf_rows.any() and not np.isposinf(b["final_stock"][inf_rows]).all():
+            out.append(viol(pid, T, "an inventory declared infinite is no longer infinite at the end of a long run"))
+        if np.isnan(b["final_stock"]).any():
+            out.append(viol(pid, T, "NaN in the inventories at the end of a long run"))
     rec = b["production_realised"]
     last = rec[T - dt]
     if not b["crashed"] and not np.isfinite(last).all():
@@ -436,3 +482,11 @@ def long_loop_c01(sc, base, seed):
 
 def long_loop_c11(sc, base, seed):
     return long_loop(sc, base, seed, pid="C11")
+
+
+def long_loop_c05(sc, base, seed):
+    tw = copy.deepcopy(sc)
+    if tw["model"].get("inventory_dict") is None and not tw["model"].get("inf_sect"):
+        tw["model"]["inf_sect"] = [scen.labels(tw["table"])[1][0]]          # make sure one input has infinite inventories
+    tw["events"] = []
+    return long_loop(tw, base, seed * 5, pid="C05")
